@@ -11,6 +11,7 @@ use crate::chain;
 use crate::skew;
 use crate::garbage;
 use crate::poison;
+use crate::diag;
 use crate::common::*;
 use crate::model::Repr;
 
@@ -24,6 +25,7 @@ pub enum Trace {
     Skew(skew::SkewTrace),
     Garbage(garbage::GarbageTrace),
     Poison(poison::PoisonTrace),
+    Diag(diag::DiagTrace),
 }
 
 pub struct Meta {
@@ -39,7 +41,8 @@ pub fn worlds_for(prop: &str) -> &'static [&'static str] {
         "C01" | "C04" => &["ans"],
         "C02" | "C11" => &["range"],
         "C06" | "C07" | "C12" => &["ans", "range"],
-        "C08" | "C18" => &["ans", "range", "bits"],
+        "C08" => &["ans", "range", "bits"],
+        "C18" => &["ans", "range", "bits", "ans", "range", "diag"],
         "C09" => &["ans", "range", "ans", "range", "bits", "chain"],
         "C13" | "C14" => &["chain"],
         "C05" => &["skew"],
@@ -54,6 +57,13 @@ pub fn worlds_for(prop: &str) -> &'static [&'static str] {
 pub fn generate(prop: &str, seed: u64, index: u64, thorough: bool) -> Trace {
     let ws = worlds_for(prop);
     assert!(!ws.is_empty(), "harness: no world registered for {}", prop);
+    if prop == "C06" {
+        // the first runs of every C06 batch replay the published vectors
+        let v = crate::vectors::vectors();
+        if (index as usize) < v.len() {
+            return v[index as usize].clone();
+        }
+    }
     // C20 re-uses every explorer with that explorer's own workload bias
     let sub = |cands: &[&'static str]| -> &'static str { cands[((index / ws.len() as u64) % cands.len() as u64) as usize] };
     let prop: &str = if prop == "C20" {
@@ -76,6 +86,7 @@ pub fn generate(prop: &str, seed: u64, index: u64, thorough: bool) -> Trace {
         "skew" => Trace::Skew(skew::generate(seed, prop, thorough)),
         "garbage" => Trace::Garbage(garbage::generate(seed, prop, thorough)),
         "poison" => Trace::Poison(poison::generate(seed, prop, thorough)),
+        "diag" => Trace::Diag(diag::generate(seed, prop, thorough)),
         w => panic!("harness: unknown world {}", w),
     }
 }
@@ -108,6 +119,7 @@ pub fn exec(t: &Trace, ctx: &mut Ctx) -> Result<(), Violation> {
         Trace::Skew(t) => skew::exec(t, ctx),
         Trace::Garbage(t) => garbage::exec(t, ctx),
         Trace::Poison(t) => poison::exec(t, ctx),
+        Trace::Diag(t) => diag::exec(t, ctx),
         Trace::Bits(t) => {
             if ctx.on("C08") {
                 let twin = {
@@ -159,11 +171,13 @@ pub fn ops_len(t: &Trace) -> usize {
         Trace::Chain(t) => t.steps.len(),
         Trace::Skew(t) => t.symbols.len(),
         Trace::Garbage(t) => t.decodes.len(),
+        Trace::Diag(t) => t.n,
         Trace::Poison(t) => match t {
             poison::PoisonTrace::BufMut { uses, .. } => uses.len() + 2,
             poison::PoisonTrace::Floats { queries, .. } => queries.len() + 2,
             poison::PoisonTrace::Cdf { queries, .. } => queries.len() + 2,
             poison::PoisonTrace::Quantile { quantiles, .. } => quantiles.len() + 2,
+            poison::PoisonTrace::Tables { queries, .. } => queries.len() + 2,
             poison::PoisonTrace::ValidModel { .. } => 2,
         },
     }
@@ -206,6 +220,11 @@ pub fn without_ops(t: &Trace, from: usize, to: usize) -> Trace {
             t.decodes.drain(from..to.min(t.decodes.len()));
             Trace::Garbage(t)
         }
+        Trace::Diag(t) => {
+            let mut t = t.clone();
+            t.n = t.n.saturating_sub(to - from).max(2);
+            Trace::Diag(t)
+        }
         Trace::Poison(t) => {
             let mut t = t.clone();
             // ops_len counts two structural steps before the droppable list
@@ -215,6 +234,7 @@ pub fn without_ops(t: &Trace, from: usize, to: usize) -> Trace {
                 poison::PoisonTrace::Floats { queries, .. } => { let b = b.min(queries.len()); if a < b { queries.drain(a..b); } }
                 poison::PoisonTrace::Cdf { queries, .. } => { let b = b.min(queries.len()); if a < b { queries.drain(a..b); } }
                 poison::PoisonTrace::Quantile { quantiles, .. } => { let b = b.min(quantiles.len()); if a < b { quantiles.drain(a..b); } }
+                poison::PoisonTrace::Tables { queries, .. } => { let b = b.min(queries.len()); if a < b { queries.drain(a..b); } }
                 poison::PoisonTrace::ValidModel { .. } => {}
             }
             Trace::Poison(t)
@@ -226,6 +246,7 @@ pub fn simplifications(t: &Trace) -> Vec<Trace> {
     let mut out = Vec::new();
     match t {
         Trace::Poison(_) => {}
+        Trace::Diag(_) => {}
         Trace::Garbage(t) => {
             if t.data.len() > 1 {
                 for cut in [t.data.len() / 2, 1] {
